@@ -114,6 +114,7 @@ fn main() {
                 "evaluator-identifiers" => replay_text(&checks::tworld::EvalIds, &text),
                 "individual-histories" => replay_text(&checks::indiv::IndividualHistories, &text),
                 "prepared-reactions" => replay_text(&checks::prepared::Reactions, &text),
+                "two-swarms" => replay_text(&checks::swarms::TwoSwarms, &text),
                 "par-experiment" => {
                     let _quiet = par::StdoutSilencer::new();
                     replay_text(&checks::experiment::Experiment { prop: match file.property.as_str() { "C15" => "C15", "C05" => "C05", "C06" => "C06", _ => "C08" } }, &text)
